@@ -389,6 +389,7 @@ impl Chain {
             }
         }
         let nored = j(VALS.iter().filter(|v| self.no_redelegate.contains(v)).map(|v| v.to_string()).collect());
+        let noundel = j(VALS.iter().filter(|v| self.no_undelegate.contains(v)).map(|v| v.to_string()).collect());
         vec![
             format!("hub.raw={}", s8(raw)),
             format!("hub.q={}", hq),
@@ -404,7 +405,7 @@ impl Chain {
             format!("disp={}", disp_s),
             format!("reg={};[{}]", reg_s, regq),
             format!(
-                "chain={},{};bank[{}];deleg[{}];unb[{}];pend[{}];wa={};nored[{}]",
+                "chain={},{};bank[{}];deleg[{}];unb[{}];pend[{}];wa={};nored[{}];noundel[{}]",
                 self.time,
                 self.height,
                 j(bank),
@@ -412,7 +413,8 @@ impl Chain {
                 unb,
                 j(pend),
                 self.withdraw_addr,
-                nored
+                nored,
+                noundel
             ),
         ]
         .join(" ")
